@@ -1079,7 +1079,8 @@ static int sp_dgemv(char tA, int m, int n, number alpha, void *a, int oA,
   scal[A->id]((tA == 'N' ? &m : &n), &beta, Y, &iy);
 
   if (!m) return 0;
-  int i, j, k, oi = oA % A->nrows, oj = oA / A->nrows;
+  int i, j, k, oi = (A->nrows ? oA % A->nrows : 0),
+      oj = (A->nrows ? oA / A->nrows : 0);
 
   if (tA == 'N') {
     for (j=oj; j<n+oj; j++) {
@@ -1117,7 +1118,8 @@ static int sp_zgemv(char tA, int m, int n, number alpha, void *a, int oA,
   scal[A->id]((tA == 'N' ? &m : &n), &beta, Y, &iy);
 
   if (!m) return 0;
-  int i, j, k, oi = oA % A->nrows, oj = oA / A->nrows;
+  int i, j, k, oi = (A->nrows ? oA % A->nrows : 0),
+      oj = (A->nrows ? oA / A->nrows : 0);
 
   if (tA == 'N') {
     for (j=oj; j<n+oj; j++) {
@@ -1160,7 +1162,8 @@ int sp_dsymv(char uplo, int n, number alpha, ccs *A, int oA, void *x, int ix,
   scal[A->id](&n, &beta, y, &iy);
 
   if (!n) return 0;
-  int i, j, k, oi = oA % A->nrows, oj = oA / A->nrows;
+  int i, j, k, oi = (A->nrows ? oA % A->nrows : 0),
+      oj = (A->nrows ? oA / A->nrows : 0);
   for (j=0; j<n; j++) {
 
     for (k = A->colptr[j+oj]; k < A->colptr[j+oj+1]; k++) {
@@ -1201,7 +1204,8 @@ int sp_zsymv(char uplo, int n, number alpha, ccs *A, int oA, void *x, int ix,
   scal[A->id](&n, &beta, y, &iy);
 
   if (!n) return 0;
-  int i, j, k, oi = oA % A->nrows, oj = oA / A->nrows;
+  int i, j, k, oi = (A->nrows ? oA % A->nrows : 0),
+      oj = (A->nrows ? oA / A->nrows : 0);
   for (j=0; j<n; j++) {
 
     for (k = A->colptr[j+oj]; k < A->colptr[j+oj+1]; k++) {
